@@ -201,6 +201,15 @@ fn run_program(src: &str) -> RunResult {
 }
 
 fn check_fault_program(t: &mut Tally, fam: &str, b: &Built, first_frame_only: bool) {
+    check_fault_program_text(t, fam, b, first_frame_only);
+    // the same program with CRLF line endings: same lines
+    if t.evals % 4 == 0 {
+        let crlf = Built { src: b.src.replace('\n', "\r\n"), expected: b.expected.clone() };
+        check_fault_program_text(t, &format!("{fam}-crlf"), &crlf, first_frame_only);
+    }
+}
+
+fn check_fault_program_text(t: &mut Tally, fam: &str, b: &Built, first_frame_only: bool) {
     t.count(fam);
     let src_lines: Vec<&str> = b.src.lines().collect();
     match run_program(&b.src) {
@@ -313,6 +322,53 @@ fn runtime_families(t: &mut Tally, shard: usize, nshards: usize, tier: Tier) {
                         }
                         check_fault_program(t, "faults-in-callbacks-of-native-consumers", &Built { src: l.v.join("\n") + "\n", expected }, false);
                     }
+                }
+            }
+        }
+    }
+    // faults inside generators: straight after a yield (first instruction after the resume),
+    // after a filler, before the first yield; consumed by a for loop, by next(), by to_list()
+    if shard == 4 % nshards {
+        let consumers: [&[&str]; 4] = [&["for v in gg()", "  seen = v"], &["it = gg()", "it.next()", "it.next()", "it.next()"], &["res = gg().to_list()"], &["res = gg().each(|v| v).to_tuple()"]];
+        for fa in 0..FILLERS.len() {
+            for f in FAULT_STMTS {
+                for (ci, cons) in consumers.iter().enumerate() {
+                    for pre in [&[][..], &["yield 1"][..], &["yield 1", "yield 2"][..], &["yield 1", "pad = 1"][..], &["for q in 0..2", "  yield q"][..]] {
+                        let mut l = Lines { v: vec![] };
+                        l.v.push("nv = null".into());
+                        l.v.push("gg = ||".into());
+                        l.push_block(2, FILLERS[fa]);
+                        l.push_block(2, pre);
+                        let fault = l.v.len();
+                        l.v.push(format!("  {f}"));
+                        l.v.push("  yield 9".into());
+                        let site = l.v.len() + if ci == 1 { pre.iter().filter(|p| p.starts_with("yield")).count().min(2) + 1 } else { 0 };
+                        l.push_block(0, cons);
+                        let _ = site;
+                        check_fault_program(t, "faults-in-generators", &Built { src: l.v.join("\n") + "\n", expected: vec![fault] }, true);
+                    }
+                }
+            }
+            // debug straight after a yield
+            for pre in [&["yield 1"][..], &["yield 1", "yield 2"][..]] {
+                let mut l = Lines { v: vec![] };
+                l.v.push("gg = ||".into());
+                l.push_block(2, FILLERS[fa]);
+                l.v.push("  dv = 5".into());
+                l.push_block(2, pre);
+                let at = l.v.len();
+                l.v.push("  debug dv".into());
+                l.v.push("  yield 9".into());
+                l.v.push("res = gg().to_list()".into());
+                let src = l.v.join("\n") + "\n";
+                t.count("debug-prefix");
+                if let RunResult::Ok(out) = run_program(&src) {
+                    let want = format!("[{}] ", at + 1);
+                    if !out.lines().any(|l| l.starts_with(&want)) {
+                        t.fail("debug-prefix", "wrong-line", format!("debug after a yield: output {:?} where the expression is on line {}", out.lines().find(|l| l.starts_with('[')).unwrap_or("<none>"), at + 1), format!("stdout:\n{out}\n--- program ---\n{src}"));
+                    }
+                } else {
+                    t.fail("debug-prefix", "generator-invalid", "debug-after-yield program failed".into(), format!("--- program ---\n{src}"));
                 }
             }
         }
